@@ -14,6 +14,7 @@ THEOREMS = ["c02_periods_independent_and_well_formed", "c02_every_period_closed"
 BITS = [(1, "period-starts-stops-do-not-alternate"), (2, "period-not-closed-at-end-of-play"),
         (4, "report-outside-every-period"), (8, "period-not-judged-by-fresh-evaluator-with-one-end-judgement"),
         (16, "periods-are-not-the-stretches-where-the-condition-holds"), (32, "audition-crashed")]
+SIG_PRED = "verdicts-of-a-period-differ-from-the-modality-over-its-observations"
 
 ASSUMPTIONS = [
     "govaluate is modelled by Model/Expr.v for the generated expression subset (constants, variables, [actor signal], comparison, && || !, + - *, the array/scalar functions); float64 is modelled by exact rationals, compared with 1e-9 relative tolerance (1/50 absolute in the final round, whose time stamp is the wall clock)",
@@ -31,12 +32,13 @@ def classify(code):
 def eval_shard(args):
     tag, cases_v = args
     queries = [("M", "bad_indices case_model_bad cases"),
-               ("OC", "map case_oracle_code cases")]
+               ("OC", "map case_oracle_code cases"),
+               ("PO", "bad_indices2 case_pred_oracle_bad 0 cases case_preds")]
     rc, cout, q, path = vlib.eval_cases(PID, tag, audcommon.HEADER % "Corr.C02", cases_v, queries, timeout=3000)
     return rc, cout, {k: vlib.parse_nat_list(v) for k, v in q.items()}, path
 
 
-def split_cases(cases_v, nshards):
+def split_cases(cases_v, nshards, preds=None):
     """cases.v holds one `Definition cases : list aud_case := [ a; b; ... ].`
     with one element starting per line with '{| k_cfg'."""
     head, _, body = cases_v.partition(":= [\n")
@@ -47,7 +49,9 @@ def split_cases(cases_v, nshards):
     per = (len(items) + nshards - 1) // nshards
     for i in range(0, len(items), per):
         chunk = items[i:i + per]
-        shards.append((i, "Definition cases : list aud_case := [\n  " + ";\n  ".join(chunk) + "\n].\n"))
+        pchunk = (preds or ["[]"] * len(items))[i:i + per]
+        shards.append((i, "Definition cases : list aud_case := [\n  " + ";\n  ".join(chunk) + "\n].\n"
+                          "Definition case_preds : list (list (string * cond_shape * pred_shape)) := [\n  " + ";\n  ".join(pchunk) + "\n].\n"))
     return shards
 
 
@@ -67,17 +71,19 @@ def run(tier, seed):
         return res.finish()
     cases_v, cases, summary = r
     nshards = 1 if tier == "quick" else 14
-    shards = split_cases(cases_v, nshards)
-    M, OC = [], []
+    preds = getattr(res, "preds_lines", None)
+    shards = split_cases(cases_v, nshards, preds)
+    M, OC, PO = [], [], []
     with concurrent.futures.ThreadPoolExecutor(max_workers=nshards) as ex:
         results = list(ex.map(eval_shard, [("%s%d" % (tier, i), sv) for i, (off, sv) in enumerate(shards)]))
     for (off, _), (rc, cout, vals, path) in zip(shards, results):
-        if rc != 0 or vals.get("M") is None or vals.get("OC") is None:
+        if rc != 0 or vals.get("M") is None or vals.get("OC") is None or vals.get("PO") is None:
             res.violation(None, "correspondence cases did not evaluate (shard at %d)" % off,
                           {"kind": "cases-eval", "output": cout[-6000:]}, no_input=True)
             return res.finish()
         M += [off + i for i in vals["M"]]
         OC += vals["OC"]
+        PO += [off + i for i in vals["PO"]]
     res.coverage.update({
         "evaluations": summary["cases"], "distinct_nontrivial": summary["distinct_nontrivial"],
         "rule": "generated audiences (1-3 auditors; activation: none/throughout/mood-based/signal-based/t-based/arbitrary boolean; predicates over signals only or also t/mood/moodt/computed variables; every accepted modality; collects/computes chains in 1 of 5) x event histories (0-24 events: mood changes incl. repeated moods, samples with repeated values and equal time stamps, then the end of the play), all through the real checkEvent/checkEventForAuditor/checkFinal via the hook; non-trivial = distinct (config, history) with >= 3 events and >= 2 reports",
@@ -98,6 +104,13 @@ def run(tier, seed):
                            "outputs": c["Result"]["Outs"], "audit_err": c["Result"]["AuditErr"],
                            "panic": c["Result"]["Panic"], "oracle_bits": classify(code),
                            "replay": "cmd.VerifAudition(config, events, false, false)"})
+    if PO:
+        c = cases[PO[0]]
+        res.violation(SIG_PRED, "the result codes an auditor reported in one of its activation periods are not those of its modality run afresh over the observations of that period (the rounds that sample the predicate's signal between the round that opens the period and the round that closes it): %d of %d histories" % (len(PO), len(cases)),
+                      {"kind": "failing-input", "config": c["Cfg"], "events": c["Events"],
+                       "outputs": c["Result"]["Outs"], "audit_err": c["Result"]["AuditErr"],
+                       "replay": "cmd.VerifAuditLoop(config, events, false)"})
+    res.coverage["observation_oracle"] = {"auditors_judged": summary["stats"].get("pred-oracle-auditors", 0), "failures": len(PO)}
     if not res.violations and not res.known and M:
         c = cases[M[0]]
         res.violation(None, "model (Model/Audit.v) and implementation disagree on %d of %d histories while the period oracle passes: correspondence case_model_bad broken" % (len(M), len(cases)),
